@@ -76,6 +76,8 @@ def prefix(e):
         return "%s %s" % (k, prefix(e[1]))
     if k == "TR":
         return "TR %d %d %d %s" % (e[1] + (prefix(e[2]),))
+    if k == "AF":
+        return "AF %s %s %s" % (" ".join(str(x) for r in e[1] for x in r), " ".join(map(str, e[2])), prefix(e[3]))
     return "%s %d %s" % (k, len(e[1]), " ".join(prefix(x) for x in e[1]))
 
 
@@ -99,6 +101,8 @@ def pretty(e):
         return "M%s(%s)" % (k[1].lower(), pretty(e[1]))
     if k == "TR":
         return "Tr%+d%+d%+d(%s)" % (e[1] + (pretty(e[2]),))
+    if k == "AF":
+        return "Af{%s;%s}(%s)" % (",".join(str(x) for r in e[1] for x in r), ",".join(map(str, e[2])), pretty(e[3]))
     return "%s(%s)" % (k, ",".join(pretty(x) for x in e[1]))
 
 
@@ -152,6 +156,13 @@ def parse_pretty(s):
             a = e()
             eat(")")
             return (k, ax, off, a)
+        if s[pos[0]:pos[0] + 3] == "Af{":
+            m = re.match(r"Af\{([-\d,]+);([-\d,]+)\}\(", s[pos[0]:])
+            pos[0] += m.end()
+            a = e()
+            eat(")")
+            mm = [int(x) for x in m.group(1).split(",")]
+            return ("AF", (tuple(mm[0:3]), tuple(mm[3:6]), tuple(mm[6:9])), tuple(int(x) for x in m.group(2).split(",")), a)
         if c == "R":
             eat("R")
             ax = peek().upper()
@@ -221,7 +232,7 @@ def children(e):
         return [e[2]]
     if k in ("MX", "MY", "MZ"):
         return [e[1]]
-    if k in ("P0", "P1"):
+    if k in ("P0", "P1", "AF"):
         return [e[3]]
     if k == "T":
         return [e[4]]
@@ -843,6 +854,224 @@ def run_big_batches(cx, exe, drv, K, thorough):
     return len(progs), ok
 
 
+# ------------------------------------------------------------------ general unimodular integer affine maps (shears ...)
+def det3i(M):
+    return (M[0][0] * (M[1][1] * M[2][2] - M[1][2] * M[2][1]) - M[0][1] * (M[1][0] * M[2][2] - M[1][2] * M[2][0])
+            + M[0][2] * (M[1][0] * M[2][1] - M[1][1] * M[2][0]))
+
+
+def inv3i(M):
+    d = det3i(M)
+    c = lambda i, j: (M[(i + 1) % 3][(j + 1) % 3] * M[(i + 2) % 3][(j + 2) % 3] - M[(i + 1) % 3][(j + 2) % 3] * M[(i + 2) % 3][(j + 1) % 3])
+    return tuple(tuple(c(j, i) * d for j in range(3)) for i in range(3))      # adj / det with det = +-1
+
+
+def rand_unimodular(rng):
+    """det +-1, entries in {-2..2}: shears (every sign pattern, every row), their products, signed permutations"""
+    while True:
+        r = rng.random()
+        if r < 0.5:          # elementary shear: row i += k * row j
+            M = [[1 if i == j else 0 for j in range(3)] for i in range(3)]
+            i, j = rng.sample(range(3), 2)
+            M[i][j] = rng.choice([-2, -1, 1, 2])
+            if rng.random() < 0.4:
+                i2, j2 = rng.sample(range(3), 2)
+                if (i2, j2) != (j, i):
+                    M[i2][j2] = rng.choice([-2, -1, 1, 2])
+        else:
+            M = [[rng.randrange(-2, 3) for _ in range(3)] for _ in range(3)]
+        M = tuple(tuple(r_) for r_ in M)
+        if abs(det3i(M)) == 1 and all(abs(x) <= 7 for r_ in inv3i(M) for x in r_):
+            return M
+
+
+def _pull(e, p):
+    Mi = inv3i(e[1])
+    q = [p[i] - e[2][i] for i in range(3)]
+    return tuple(sum(Mi[i][j] * q[j] for j in range(3)) for i in range(3))
+
+
+def aff_inside(e, p):
+    """exact membership (Fractions): lattice boxes, the three set operations, pull-back through integer affine maps"""
+    k = e[0]
+    if k == "B":
+        return all(e[1][i] < p[i] < e[2][i] for i in range(3))
+    if k == "AF":
+        return aff_inside(e[3], _pull(e, p))
+    a, b = aff_inside(e[1], p), aff_inside(e[2], p)
+    return (a or b) if k == "+" else (a and not b) if k == "-" else (a and b)
+
+
+def aff_on_face(e, p):
+    k = e[0]
+    if k == "B":
+        return any(p[i] == e[1][i] or p[i] == e[2][i] for i in range(3))
+    if k == "AF":
+        return aff_on_face(e[3], _pull(e, p))
+    return aff_on_face(e[1], p) or aff_on_face(e[2], p)
+
+
+def aff_corners(e, g=None):
+    """image corners of all leaf boxes (for the sampling region)"""
+    k = e[0]
+    ap = lambda M, t, p: tuple(sum(M[i][j] * p[j] for j in range(3)) + t[i] for i in range(3))
+    if k == "B":
+        cs = [(x, y, z) for x in (e[1][0], e[2][0]) for y in (e[1][1], e[2][1]) for z in (e[1][2], e[2][2])]
+        for (M, t) in reversed(g or []):
+            cs = [ap(M, t, c) for c in cs]
+        return cs
+    if k == "AF":
+        return aff_corners(e[3], (g or []) + [(e[1], e[2])])
+    return aff_corners(e[1], g) + aff_corners(e[2], g)
+
+
+def rand_aff_node(rng, a):
+    M = rand_unimodular(rng)
+    cs = aff_corners(a)
+    c0 = [sum(c[i] for c in cs) / len(cs) for i in range(3)]
+    img = [sum(M[i][j] * c0[j] for j in range(3)) for i in range(3)]
+    t = tuple(int(round(1.5 - img[i])) + rng.choice([-1, 0, 0, 1]) for i in range(3))
+    return ("AF", M, t, a)
+
+
+def raffprog(rng):
+    leaf = lambda: rbox(rng)
+    small = lambda: leaf() if rng.random() < 0.6 else (rng.choice(OPS), leaf(), leaf())
+    r = rng.random()
+    op = rng.choice(OPS)
+    if r < 0.35:
+        return (op, rand_aff_node(rng, small()), small())
+    if r < 0.6:
+        return (op, small(), rand_aff_node(rng, small()))
+    if r < 0.8:      # on a sub-expression of a deeper program, both operands mapped
+        return (op, rand_aff_node(rng, (rng.choice(OPS), small(), leaf())), rand_aff_node(rng, leaf()))
+    return (op, rand_aff_node(rng, (rng.choice(OPS), rand_aff_node(rng, leaf()), leaf())), small())   # nested maps
+
+
+def has_affine(e):
+    return e[0] == "AF" or any(has_affine(c) for c in children(e))
+
+
+def all_det_positive(e):
+    if e[0] == "AF" and det3i(e[1]) < 0:
+        return False
+    return all(all_det_positive(c) for c in children(e))
+
+
+def aff_points(e):
+    cs = aff_corners(e)
+    lo = [min(c[i] for c in cs) for i in range(3)]
+    hi = [max(c[i] for c in cs) for i in range(3)]
+    vol = 1
+    for i in range(3):
+        vol *= (hi[i] - lo[i] + 1)
+    pitch = Fraction(1, 4)
+    while vol / float(pitch) ** 3 > 1500:
+        pitch *= 2
+    offs = (Fraction(64, 512), Fraction(72, 512), Fraction(65, 512))
+    P = []
+    steps = [int((hi[i] - lo[i] + 1) / pitch) + 1 for i in range(3)]
+    for a in range(steps[0]):
+        for b in range(steps[1]):
+            for c in range(steps[2]):
+                p = (lo[0] - Fraction(1, 2) + a * pitch + offs[0] * pitch * 4, lo[1] - Fraction(1, 2) + b * pitch + offs[1] * pitch * 4,
+                     lo[2] - Fraction(1, 2) + c * pitch + offs[2] * pitch * 4)
+                if not aff_on_face(e, p):
+                    P.append(p)
+    return P
+
+
+def run_affine(cx, exe, drv, cases, label):
+    """cases: (id, mode 0|1, program with AF nodes).  Oracle: extracted exact winding number of the result at a dense
+    lattice of rational sample points (pitch 1/4 or coarser, per-axis offsets, points on a face dropped) against the
+    set formula evaluated EXACTLY by pulling the point back through the inverse (integer) maps; plus the exact volume
+    against the same program with the maps applied vertex by vertex through Warp (collider rebuilt), within VOL_TOL."""
+    import struct
+    lines = []
+    for cid, mode, e in cases:
+        lines.append("L %s %d %s" % (cid, mode, prefix(e)))
+        if all_det_positive(e):
+            lines.append("L %sw 2 %s" % (cid, prefix(e)))
+    kl = lambda l: l.split()[1] if l.startswith("L ") else None
+    ko = lambda l: l.split()[1] if l.startswith("ST ") else None
+    out, crashes = "", []
+    for s_ in range(0, len(lines), 12):          # small chunks: a crashing tree must not hide the other programs
+        o_, c_ = vp.run_cases(exe, lines[s_:s_ + 12], kl, ko, timeout=600, max_restarts=6)
+        out += o_
+        crashes += c_
+    byid = {str(c[0]): c for c in cases}
+    for cl, rc, err in crashes:
+        cid = cl.split()[1].rstrip("w")
+        if cid in byid:
+            key, can = prog_key(byid[cid][2], byid[cid][1])
+            cx.violation(key, "Boolean with an affinely mapped operand crashed or hung (rc=%s): %s :: %s" % (rc, can, err[-160:].replace("\n", " ")),
+                         {"program": can, "prefix": prefix(byid[cid][2]), "harness_line": cl})
+    tok = lambda fr: "x" + struct.pack(">d", float(fr)).hex()
+    dl, pts, status = [], {}, {}
+    for l in out.splitlines():
+        if l.startswith("MESH r"):
+            name = l.split(" ", 2)[1]
+            cid = name[1:]
+            if cid.endswith("w"):
+                dl += [l, "VOL %s %s" % (cid, name), "DROP %s" % name]
+                continue
+            if cid not in byid:
+                continue
+            P = aff_points(byid[cid][2])
+            pts[cid] = P
+            dl += [l, "PTS p%s %d %s" % (cid, len(P), " ".join("%s %s %s" % (tok(p[0]), tok(p[1]), tok(p[2])) for p in P)),
+                   "WIND %s p%s %s" % (cid, cid, name), "VOL %s %s" % (cid, name), "DROP %s p%s" % (name, cid)]
+        elif l.startswith("ST "):
+            t = l.split()
+            status[t[1]] = int(t[2])
+    rc, dout, derr = vp.sh2([drv], input="\n".join(dl) + "\n", timeout=1700)
+    if rc != 0:
+        cx.broke("corr:C02/driver", "%s: exact checker exited %d: %s" % (label, rc, derr[-300:]))
+    W, V = {}, {}
+    for l in dout.splitlines():
+        t = l.split()
+        if t[0] == "W":
+            W[t[1]] = [int(x) for x in t[4:]]
+        elif t[0] == "V":
+            V[t[1]] = Fraction(int(t[4], 16), 1 << (3 * int(t[3]))) / 6
+    st = {"programs": 0, "points": 0, "inside_points": 0, "with_warp_reference": 0, "rejected": 0}
+    for cid, mode, e in cases:
+        cid = str(cid)
+        key, can = prog_key(e, mode)
+        rep = {"program": can, "prefix": prefix(e), "mode": "eager" if mode else "lazy"}
+        if cid not in W or cid not in V:
+            if status.get(cid) not in (None, 0):
+                cx.violation(key, "Boolean with an affinely mapped operand returned status %d: %s" % (status[cid], can), rep)
+                st["rejected"] += 1
+            elif cid in status and cid in pts and not pts[cid]:
+                pass
+            elif not any(cl.split()[1].rstrip("w") == cid for cl, _, _ in crashes):
+                cx.broke("corr:C02/affine-missing", "%s: no verdict for %s" % (label, can))
+            continue
+        st["programs"] += 1
+        if status.get(cid, 0) != 0:
+            cx.violation(key, "Boolean with an affinely mapped operand returned status %d: %s" % (status[cid], can), rep)
+            st["rejected"] += 1
+            continue
+        want = [int(aff_inside(e, p)) for p in pts[cid]]
+        st["points"] += len(want)
+        st["inside_points"] += sum(want)
+        bad = [(tuple(float(x) for x in p), w, v) for p, w, v in zip(pts[cid], W[cid], want) if w != v]
+        msg = None
+        if bad:
+            msg = "%d of %d exact sample points classified against the set formula (e.g. point %s winding %d, formula %d)" % (
+                len(bad), len(want), bad[0][0], bad[0][1], bad[0][2])
+        elif cid + "w" in V:
+            st["with_warp_reference"] += 1
+            if status.get(cid + "w", 0) == 0 and abs(V[cid] - V[cid + "w"]) > VOL_TOL:
+                msg = "exact volume %.9g differs from %.9g of the same program with the maps applied vertex-wise by Warp" % (float(V[cid]), float(V[cid + "w"]))
+        if msg:
+            rep.update({"volume": float(V[cid]), "volume_warp_reference": float(V.get(cid + "w", -1)), "misclassified": bad[:8]})
+            cx.violation(key, "lattice program with unimodular integer affine maps %s: %s" % (can, msg), rep)
+            st["rejected"] += 1
+    return st
+
+
 # ------------------------------------------------------------------ kernel correspondence
 KTAGS = ["S01F", "S01B", "K02F", "K02B", "K11", "K12F", "K12B"]
 
@@ -1024,6 +1253,12 @@ def replay(cx, exe, drv, path):
         e = parse_pretty(can.rsplit("@", 1)[0])
         key, can2 = prog_key(e, mode)
         cx.log("replay %s  key=%s" % (can2, key))
+        if has_affine(e):
+            st = run_affine(cx, exe, drv, [("0", mode, e)], "replay")
+            cx.log("  prefix form fed to the harness: L 0 %d %s" % (mode, prefix(e)))
+            cx.log("  checker (exact winding at rational sample points vs pulled-back set formula; volume vs Warp reference): %s" % st)
+            cx.cov.update({"evaluations": 1, "distinct_nontrivial": 1, "rule": "replay of one stored case", "distribution": {"replay": path}})
+            return
         cx.log("  prefix form fed to the harness: L 0 %d %s" % (mode, prefix(e)))
         rc, out, err = vp.sh2([exe], input="L 0 %d %s\n" % (mode, prefix(e)), timeout=120)
         mesh = [l for l in out.splitlines() if l.startswith("MESH r0")]
@@ -1211,6 +1446,15 @@ def run(cx):
         nontriv += nb
         dist["large_batch"] = nb
         cx.log("large batches around kMaxUnionSize=%d: %d programs, %d accepted" % (K, nb, okb))
+    # (ii-d) operands / sub-expressions under general unimodular integer affine maps (shears, every sign pattern) through
+    #        Manifold::Transform(mat3x4), lazy and eager; fixed stream
+    arng = random.Random(FIXED_AFFINE_SEED)
+    acases = [("a%d" % i, arng.randrange(2), raffprog(arng)) for i in range(cx.pick(NQ_AFF, NT_AFF))]
+    ast = run_affine(cx, exe, drv, acases, "affine")
+    total += ast["programs"]
+    nontriv += ast["programs"]
+    dist["affine_maps"] = ast
+    cx.log("programs with unimodular integer affine maps (fixed stream): %s" % ast)
     # search: a proof obligation / the translator no longer checks -> spend extra budget on seed-dependent nested programs
     # (the coincident-geometry regime every proved kernel is about) to turn the broken tie into a concrete failing input
     if cx.broken:
@@ -1264,6 +1508,8 @@ def rng_depth(rng):
 # budgets (set from measurements on the pinned tree, see the report)
 FIXED_STREAM_SEED = 20250923
 FIXED_XFORM_SEED = 20250924
+FIXED_AFFINE_SEED = 20250925
+NQ_AFF, NT_AFF = 150, 3000
 NQ_XFORM, NT_XFORM = 4000, 60000
 NQ_PAIRS, NQ_PLANE = 5000, 1500
 NQ_NEST, NT_NEST = 4000, 80000
